@@ -1166,6 +1166,7 @@ class XCodeBackend(backends.Backend):
             target_children = PbxArray()
             target_dict.add_item('children', target_children)
             target_children.add_item(target_src_map[tname], 'Source files')
+            main_children.add_item(groupmap[tname], tname)
             if t.subproject:
                 target_dict.add_item('name', f'{t.subproject} • {t.name}')
             else:
